@@ -568,6 +568,9 @@ func (x Expr) Has(data any) bool {
 				if start < 0 {
 					start = len(tv) + start
 					if start < 0 {
+						if step < 0 { // walking down from before the first element
+							continue
+						}
 						start = 0
 					}
 				}
@@ -637,6 +640,9 @@ func (x Expr) Has(data any) bool {
 				if start < 0 {
 					start = size + start
 					if start < 0 {
+						if step < 0 { // walking down from before the first element
+							continue
+						}
 						start = 0
 					}
 				}
@@ -705,6 +711,9 @@ func (x Expr) Has(data any) bool {
 				if start < 0 {
 					start = len(tv) + start
 					if start < 0 {
+						if step < 0 { // walking down from before the first element
+							continue
+						}
 						start = 0
 					}
 				}
